@@ -564,6 +564,35 @@ class Unit:
                 elif tag == 'delete':
                     for k in range(i1, i2):
                         amap[k] = j1 - 1   # after the line before the deletion (may be -1)
+        # R23 local renames: when replaced line pairs differ only in identifiers, consistently (old -> new), the old name is gone from the
+        # new text and the new name did not occur in the old one, the inserted lines follow the rename (they talk about the same variable)
+        renames = {}
+        if it.changed:
+            tok = lambda t: re.findall(r"[A-Za-z_][A-Za-z0-9_]*|\S", t)
+            ident = re.compile(r'^[A-Za-z_][A-Za-z0-9_]*$')
+            cand, bad = {}, set()
+            for tag, i1, i2, j1, j2 in sm.get_opcodes():
+                if tag != 'replace' or i2 - i1 != j2 - j1:
+                    continue
+                for k in range(i2 - i1):
+                    ta, tb = tok(a[i1 + k]), tok(b[j1 + k])
+                    if len(ta) != len(tb):
+                        continue
+                    for x, y in zip(ta, tb):
+                        if x != y:
+                            if ident.match(x) and ident.match(y):
+                                if cand.setdefault(x, y) != y:
+                                    bad.add(x)
+                            else:
+                                bad.add(x)
+            old_toks = set(t for line in a for t in tok(line))
+            new_toks = set(t for line in b for t in tok(line))
+            kw = {'self', 'Self', 'mut', 'let', 'if', 'else', 'match', 'for', 'while', 'loop', 'return', 'true', 'false', 'in', 'as', 'ref', 'fn', 'break', 'continue'}
+            for x, y in cand.items():
+                if x in bad or x in kw or y in kw or x in new_toks or y in old_toks or list(cand.values()).count(y) != 1:
+                    continue
+                renames[x] = y
+        it.renames = dict(renames)
         # insertion blocks keyed by the new real ordinal they follow
         after = {}
         ordinal = -1
@@ -583,6 +612,11 @@ class Unit:
                         continue     # known-failing clause: only checked in the strict run
                 elif kf and not kf_on:
                     continue
+                if renames:
+                    head, sep, tail = text.partition('//@w')
+                    for x, y in renames.items():
+                        head = re.sub(r'\b%s\b' % re.escape(x), y, head)
+                    text = head + sep + tail
                 out.append(Line(text, 'ins', tags, kf, label, idx))
         emit_ins(after.get(-1, []))
         jord = {j: k for k, (j, _) in enumerate(new_real)}
